@@ -258,7 +258,7 @@ fn gen_program(t: &mut Tape, st: &mut Stats, max_lines: usize) -> Vec<Line> {
                 ins.args = vec!["exit".into(), f, v];
             }
             4 => {
-                ins.args = vec!["err".into(), t.pick(&["boom", "bad thing", "", "é"]).to_string()];
+                ins.args = vec!["err".into(), t.pick(&["boom", "bad thing", "", "é", "${x}", "${z}", "pre ${y}"]).to_string()];
             }
             6 => {
                 let (f, v) = gen_val(t);
@@ -575,7 +575,7 @@ fn case_with(t: &mut Tape, st: &mut Stats, max_lines: usize) -> Verdict {
     let mut init = HashMap::new();
     for o in OUTS {
         if t.chance(1, 3) {
-            init.insert(o.to_string(), t.pick(&["i0", "init value", ""]).to_string());
+            init.insert(o.to_string(), t.pick(&["i0", "init value", "", "cost \\${y}", "100\\% done", "a\\$b"]).to_string());
         }
     }
     // render
@@ -705,7 +705,7 @@ pub fn property() -> Property {
         rule: "programs of 1..40 (thorough: ..120) lines over a scripted command whose result (continue/goto label/goto line/exit/error/crash, with or without value, with jump countdowns of 0..2 and, for one jump in twenty, 300..1600) is dictated by its arguments, with labels from a small pool (duplicates, undefined targets), forward/backward/out-of-range line jumps, unknown commands, arguments reading variables, an on_error command (registered at the start or not, and registered / removed by the scripted command while the script runs) answering continue/exit/crash/error/goto or writing a variable, and recording the variables it sees when called, text or file mode, one script in five starting with an !include_files of 1..4 empty / comment lines (whose empty instructions precede the script's own, so jump targets shift while source lines do not); compared with an abstract machine transcribed from the statement: full call log (arguments, line index, output variable), on_error call log, final variables, Ok/Err with source line (and source file). Non-trivial: >=2 result kinds executed and >=1 jump or error; distinct by (script, configuration) hash",
         assumptions: &[
             "instructions with an output variable but no command, and exit values that are integers written with a plus sign / spaces or outside i32, are not generated (zero written as 00, 000 or -0 is an integer zero: the run succeeds)",
-            "error messages are plain text (messages with expansion syntax belong to C10)",
+            "error messages written in the script are plain text; messages that come from a variable may hold a backslash before '$' or '%' (they reach on_error verbatim)",
         ],
         sections: vec![
             Section {
